@@ -1,5 +1,5 @@
 """C11 — generation is deterministic and independent of how the spec is written down."""
-import glob, json, os, random, re
+import glob, json, os, random, re, subprocess
 import yaml
 import vlib, specgen, inv
 from vlib import Result, log
@@ -8,8 +8,23 @@ THEOREMS = ["C11_btree_perm", "C11_btree_sorted", "C11_marking_order_irrelevant"
 TARGETS = ["Props/C11.v"]
 MODES = ["types", "client", "client-mod", "server-mod"]
 # environments the output must not depend on
+SHIM = os.path.join(vlib.ROOT if hasattr(vlib, "ROOT") else os.path.dirname(os.path.dirname(os.path.abspath(__file__))), ".cache", "clock_shim.so")
+
+
+def build_shim():
+    """the wall-clock shim (tools/clock_shim): built with the system C compiler, returns an error text or None"""
+    src = os.path.join(os.path.dirname(os.path.dirname(os.path.abspath(__file__))), "tools", "clock_shim", "clock_shim.c")
+    os.makedirs(os.path.dirname(SHIM), exist_ok=True)
+    if os.path.exists(SHIM) and os.path.getmtime(SHIM) >= os.path.getmtime(src):
+        return None
+    p = subprocess.run(["cc", "-shared", "-fPIC", "-O1", "-o", SHIM, src, "-ldl"], stdout=subprocess.PIPE, stderr=subprocess.STDOUT, text=True)
+    return None if p.returncode == 0 else p.stdout[-300:]
+
+
 ENVS = [{"TZ": "Asia/Tokyo"}, {"TZ": "America/New_York"}, {"TZ": "UTC", "LANG": "de_DE.UTF-8", "LC_ALL": "de_DE.UTF-8"}, {"TZ": "JST-9", "COLUMNS": "40", "NO_COLOR": "1"},
-        {"TZ": "EST5", "HOME": "/nonexistent", "USER": "someone", "TERM": "dumb"}]
+        {"TZ": "EST5", "HOME": "/nonexistent", "USER": "someone", "TERM": "dumb"},
+        # the wall clock moved by +400 days / -30 years (LD_PRELOAD shim)
+        {"LD_PRELOAD": SHIM, "VERIF_CLOCK_OFFSET": str(400 * 86400)}, {"LD_PRELOAD": SHIM, "VERIF_CLOCK_OFFSET": str(-30 * 365 * 86400), "TZ": "Pacific/Kiritimati"}]
 
 
 def shuffle_keys(x, rnd):
@@ -103,6 +118,8 @@ def main(tier, seed, replay=None):
     if replay:
         r = json.load(open(replay))
         corpus = [("replay", r["spec"])]
+    shim_err = build_shim()
+    res.oblige("harness: the wall-clock shim (tools/clock_shim) builds with the system C compiler", shim_err is None, shim_err or "")
     jobs = []
     for name, spec in corpus:
         variants = [("base", json.dumps(spec), "json"), ("rerun", json.dumps(spec), "json"),
@@ -113,6 +130,8 @@ def main(tier, seed, replay=None):
         if name in ("freeform", "replay"):
             variants += [(f"rerun{k}", json.dumps(spec), "json") for k in range(2, 7)]
             variants += [(f"env{k}", json.dumps(spec), "json") for k in range(len(ENVS))]
+            # the output location already holds (longer) files from an earlier run
+            variants += [("dirty", json.dumps(spec), "json")]
         for mode in MODES:
             for vname, text, ext in variants:
                 jobs.append((name, mode, vname, text, ext))
@@ -125,6 +144,14 @@ def main(tier, seed, replay=None):
         open(sp, "w").write(text)
         outp = os.path.join(base, "out" if mode.endswith("-mod") else "out.rs")
         env = None
+        if vname == "dirty":
+            junk = "// left over from an earlier, larger run\n" * 20000
+            if mode.endswith("-mod"):
+                os.makedirs(outp, exist_ok=True)
+                for fn in ("mod.rs", "types.rs", "client.rs" if mode.startswith("client") else "server.rs"):
+                    open(os.path.join(outp, fn), "w").write(junk)
+            else:
+                open(outp, "w").write(junk)
         if vname.startswith("env"):
             env = dict(vlib.ENV, **ENVS[int(vname[3:])])
         rc, txt = vlib.oas(["generate", mode, "-i", sp, "-o", outp, "-q"], timeout=120, env=env) if env else vlib.oas(["generate", mode, "-i", sp, "-o", outp, "-q"], timeout=120)
@@ -138,7 +165,7 @@ def main(tier, seed, replay=None):
     for name, spec in corpus:
         for mode in MODES:
             rc0, base, t0 = by[(name, mode, "base")]
-            for v in ["rerun", "perm1", "perm2", "yaml", "yml", "sorted", "reversed"] + ([f"rerun{k}" for k in range(2, 7)] + [f"env{k}" for k in range(len(ENVS))] if name in ("freeform", "replay") else []):
+            for v in ["rerun", "perm1", "perm2", "yaml", "yml", "sorted", "reversed"] + ([f"rerun{k}" for k in range(2, 7)] + [f"env{k}" for k in range(len(ENVS))] + ["dirty"] if name in ("freeform", "replay") else []):
                 rc, outs, t = by[(name, mode, v)]
                 n_cmp += 1
                 if rc != rc0:
@@ -155,7 +182,7 @@ def main(tier, seed, replay=None):
                     viol.append((name, spec, f"{name} {mode}: output differs for variant {v} in {diff}: {first}"))
     res.counts.update({"evaluations": len(jobs), "distinct_nontrivial": len(corpus) * len(MODES), "comparisons": n_cmp,
                        "traces_validated_against_impl": len(jobs),
-                       "rule": "corpus = shipped fixtures + feature-grammar specs; for each spec x 4 modes: two separate processes on the same file (fresh hash seeds), two random key-order permutations at every object level (different whitespace), keys sorted, keys reverse-sorted, and YAML re-encodings (.yaml with permuted keys, .yml with sorted keys); a hand-made spec with free-form JSON values (example/default/const/enum/x-*) in differing key orders and paths with several undeclared template variables gets six extra reruns and five runs under different TZ / locale / terminal environments; outputs compared byte-for-byte with only the `//! Source:` line masked"})
+                       "rule": "corpus = shipped fixtures + feature-grammar specs; for each spec x 4 modes: two separate processes on the same file (fresh hash seeds), two random key-order permutations at every object level (different whitespace), keys sorted, keys reverse-sorted, and YAML re-encodings (.yaml with permuted keys, .yml with sorted keys); a hand-made spec with free-form JSON values (example/default/const/enum/x-*) in differing key orders and paths with several undeclared template variables gets six extra reruns and runs under different TZ / locale / terminal environments, two with the wall clock moved by +400 days / -30 years (LD_PRELOAD shim), and a run into an output location that already holds longer files; outputs compared byte-for-byte with only the `//! Source:` line masked"})
     for name, _ in corpus[:4]:
         res.sample({"spec": name, "modes": MODES, "variants": ["rerun", "perm1", "perm2", "yaml", "yml", "sorted", "reversed"]})
     res.cov["trusted_base"] = vlib.COMMON_TRUSTED + ["tools/vtool inventory (syntactic: bindings/fields/adaptors of HashMap/HashSet type that are iterated)", "python json/yaml re-serialisation of the same document"]
